@@ -98,7 +98,10 @@ package spine
 //@   ensures[C09] unchanged: result != nil ==> c.bindingEntries == L0
 //@   ensures[C09] event: result == nil ==> evn == old(evn) + 1 && ev[old(evn)].EventType == api.EventTypeBindingChange && ev[old(evn)].ChangeType == api.ElementChangeAdd && ev[old(evn)].Feature == CF && ev[old(evn)].LocalFeature == SF
 //@   ensures[C09] noevent: result != nil ==> evn == old(evn)
+//@   ensures[C09] atomic: (result == nil ==> at(Publish, acquisitions(c.mux)) == 1) && (result != nil ==> acquisitions(c.mux) <= 1)
 //@   modifies c.bindingEntries, c.bindingNum, c.bindingEntries[len(c.bindingEntries)], @PUBLISH, held
+//@   loop 0 invariant none-bound-yet: forall m int :: 0 <= m && m < $k ==> !deepEqual(*$s[m].ServerFeature.Address(), *SF.Address())
+//@   loop 0 invariant locked: $s == L0 && c.bindingEntries == L0 && c.bindingNum == old(c.bindingNum) && evn == old(evn) && acquisitions(c.mux) == 1
 
 //@ func (*BindingManager).RemoveBinding safety-root
 //@   assumes c != nil && remoteDevice != nil && c.localDevice != nil && c.localDevice.Address() != nil
@@ -1161,7 +1164,7 @@ package spine
 //@ field[C17] DeviceRemote.entities guarded_by entitiesMutex
 //@ field[C17] EntityRemote.features guarded_by mux
 //@ field[C17] SubscriptionManager.subscriptionEntries guarded_by mux
-//@ field[C17] BindingManager.bindingEntries guarded_by mux
+//@ field[C09,C17] BindingManager.bindingEntries guarded_by mux
 //@ field[C17] events.handlers guarded_by mu
 //@ field[C17] Sender.reqMsgCache guarded_by muxReadCache
 //@ field[C17] Sender.datagramNotifyCache guarded_by muxNotifyCache
